@@ -619,14 +619,16 @@ def classify_session_reject(pid: str, clause: str, s: dict, l: int) -> str:
                 hi = Version(s["points"][r["hi"] - 1])
                 if hi.is_postrelease and not hi.is_prerelease:
                     return "C04:contains-via-str:~=:upper-bound-post-release"
-    if pid == "C06" and ev["op"] == "reparse" and ev["text"].startswith("~=") and not ev["exc"]:
-        # which bound shape makes the ~= rendering lossy?
+    if pid == "C06" and ev["op"] == "reparse" and "~=" in ev["text"] and not ev["exc"]:
+        # which bound shape makes the ~= rendering lossy?  (a range, or a member range of a union, closed below and open
+        # above at a post-release: it is printed as ~=X.Y, which ends at the release itself)
         from packaging.version import Version
         src = s["events"][ev["a"] - 1]["shape"]
-        if src["k"] == "range" and src["rs"][0]["hi"]:
-            hi = Version(s["points"][src["rs"][0]["hi"] - 1])
-            if hi.is_postrelease and not hi.is_prerelease:
-                return "C06:str(range):~=:upper-bound-post-release"
+        for r in src["rs"]:
+            if r["lo"] and r["hi"] and r["li"] and not r["ui"]:
+                hi = Version(s["points"][r["hi"] - 1])
+                if hi.is_postrelease and not hi.is_prerelease:
+                    return "C06:str(range):~=:upper-bound-post-release"
     return f"{pid}:{site}:{clause}{extra}"
 
 
